@@ -15,6 +15,9 @@ var c10Ops = func() []sop {
 	return o
 }()
 
+// c10OpsX: the alphabet plus a restart that lowers the cap to 2 (used by the directed histories)
+var c10OpsX = append(append([]sop{}, c10Ops...), sop{Kind: "reopen", Size: 2})
+
 func c10Run(c *fw.Ctx) {
 	for _, cap := range []int{0, 2, 1} {
 		spec := sys.StoreSpec{Backend: "file", Cap: cap}
@@ -34,6 +37,28 @@ func c10Run(c *fw.Ctx) {
 			Desc: func(seq []int) any { return descStoreSeq(spec, c10Ops, seq) },
 		}
 		e.Explore()
+		// directed: a mailbox that holds more than the cap the store is restarted with (the
+		// configuration was changed): the next delivery evicts down to the cap, oldest first; then
+		// every operation
+		if cap == 0 && c.Shard == 0 {
+			lower := len(c10OpsX) - 1
+			for _, n := range []int{3, 4, 5} {
+				var prefix []int
+				for i := 0; i < n; i++ {
+					prefix = append(prefix, i%2) // add(m1,b0) / add(m1,b1)
+				}
+				prefix = append(prefix, lower, 0)
+				for x := range c10Ops {
+					seq := append(append([]int{}, prefix...), x)
+					if !c.Begin(func() any { return descStoreSeq(spec, c10OpsX, seq) }) {
+						continue
+					}
+					if _, _, nt := runStoreSeqFrom(c, spec, c10OpsX, seq, len(prefix)-1); nt {
+						c.Nontrivial(1)
+					}
+				}
+			}
+		}
 	}
 }
 
@@ -42,7 +67,7 @@ func c10Replay(c *fw.Ctx, raw json.RawMessage) {
 	if err := json.Unmarshal(raw, &cas); err != nil {
 		c.T.Fatalf("VERIF-INFRA bad case: %v", err)
 	}
-	runStoreSeq(c, cas.Spec, c10Ops, cas.Seq)
+	runStoreSeq(c, cas.Spec, c10OpsX, cas.Seq)
 }
 
 func init() {
